@@ -5,6 +5,7 @@ import (
 	"context"
 	"errors"
 	"fmt"
+	"sync"
 	"time"
 
 	abci "github.com/tendermint/tendermint/abci/types"
@@ -279,10 +280,20 @@ func (s *syncer) Sync(snapshot *snapshot, chunks *chunkQueue) (sm.State, *types.
 	}
 
 	// Spawn chunk fetchers. They will terminate when the chunk queue is closed or context cancelled.
+	// They are all gone when Sync returns: a fetcher that outlives its restore attempt would take
+	// chunk allocations of the queue that SyncAny reuses for RETRY_SNAPSHOT and never fetch them.
 	fetchCtx, cancel := context.WithCancel(context.TODO())
-	defer cancel()
+	var fetchers sync.WaitGroup
+	defer func() {
+		cancel()
+		fetchers.Wait()
+	}()
 	for i := int32(0); i < s.chunkFetchers; i++ {
-		go s.fetchChunks(fetchCtx, snapshot, chunks)
+		fetchers.Add(1)
+		go func() {
+			defer fetchers.Done()
+			s.fetchChunks(fetchCtx, snapshot, chunks)
+		}()
 	}
 
 	pctx, pcancel := context.WithTimeout(context.TODO(), 30*time.Second)
@@ -435,9 +446,8 @@ func (s *syncer) fetchChunks(ctx context.Context, snapshot *snapshot, chunks *ch
 				select {
 				case <-ctx.Done():
 					return
-				default:
+				case <-time.After(2 * time.Second):
 				}
-				time.Sleep(2 * time.Second)
 				continue
 			}
 			if err != nil {
